@@ -540,6 +540,9 @@ def classify_cursor_write(f, st):
         if ds and all(isinstance(v, ast.Call) and isinstance(v.func, ast.Attribute) and v.func.attr in ('parse_immutable', 'parse')
                       and i == 1 for v, i in ds):
             return 'length reported by a nested parse'
+        if ds and all(isinstance(v, ast.Call) and isinstance(v.func, ast.Attribute) and isinstance(v.func.value, ast.Name) and v.func.value.id == 'self'
+                      and i is not None and helper_returns_checked_length(f, v.func.attr, i) for v, i in ds):
+            return 'length returned by a helper of the class whose every return is a nested parse report or a declared length compared with the bytes present'
         if ds and len(ds) > 1:
             # several definitions: each must be a nested parse report or a sum of an item size that was read and a
             # declared length that is compared with the bytes present before the write
@@ -586,6 +589,80 @@ def classify_cursor_write(f, st):
         if all(x is True for x in oks):
             return 'sum of checked lengths'
     return None
+
+
+def helper_returns_checked_length(f, name, idx, depth=0):
+    """``x, n = self.<name>(...)``: element ``idx`` of every tuple the helper returns is the length a nested parse reported,
+    the result of a checked primitive, or a sum of non-negative parts one of which was compared with the bytes present
+    (``if <part> > <...unparsed_length...>: raise NotEnoughData``) inside the helper"""
+    g = f.cls.resolve(name) if f.cls is not None else None
+    if g is None or depth > 2:
+        return False
+    defs = {}
+    for n in ast.walk(g.node):
+        if isinstance(n, ast.Assign) and len(n.targets) == 1:
+            t = n.targets[0]
+            if isinstance(t, ast.Tuple):
+                for i, e in enumerate(t.elts):
+                    if isinstance(e, ast.Name):
+                        defs.setdefault(e.id, []).append((n.value, i))
+            elif isinstance(t, ast.Name):
+                defs.setdefault(t.id, []).append((n.value, None))
+
+    def expand(node):
+        txt = ast.unparse(node)
+        for nm in {x.id for x in ast.walk(node) if isinstance(x, ast.Name)}:
+            for v, i in defs.get(nm, []):
+                if i is None:
+                    txt += ' | ' + ast.unparse(v)
+        return txt
+    guards = []
+    for n in ast.walk(g.node):
+        if isinstance(n, ast.If) and any(isinstance(x, ast.Raise) and x.exc is not None and 'NotEnoughData' in ast.unparse(x.exc) for x in n.body):
+            if 'unparsed_length' in expand(n.test) or 'len(self._parsable)' in expand(n.test):
+                guards.append({x.id for x in ast.walk(n.test) if isinstance(x, ast.Name)})
+
+    def nested_report(v, i):
+        return isinstance(v, ast.Call) and isinstance(v.func, ast.Attribute) and (
+            (v.func.attr in ('parse_immutable', 'parse') and i == 1) or (v.func.attr in CHECKED_HELPERS and i == 1) or
+            (isinstance(v.func.value, ast.Name) and v.func.value.id == 'self' and i is not None and helper_returns_checked_length(g, v.func.attr, i, depth + 1)))
+
+    def ok_expr(e):
+        if isinstance(e, ast.Constant) and isinstance(e.value, int) and e.value >= 0:
+            return True
+        if isinstance(e, ast.Name):
+            if e.id in [a.arg for a in g.node.args.args]:
+                return 'param'
+            ds = defs.get(e.id, [])
+            if ds and all(nested_report(v, i) for v, i in ds):
+                return True
+            if any(e.id in gd for gd in guards):
+                return True
+            if ds and all(i is None and isinstance(v, ast.Subscript) and isinstance(v.value, ast.Name) and
+                          any(nested_report(v2, i2) for v2, i2 in defs.get(v.value.id, [])) for v, i in ds):
+                return 'read'       # an element of what a checked primitive returned (a length that was read)
+            return False
+        if isinstance(e, ast.BinOp) and isinstance(e.op, ast.Add):
+            l, r = ok_expr(e.left), ok_expr(e.right)
+            names = {x.id for x in ast.walk(e) if isinstance(x, ast.Name)}
+            if l and r and (l is True or r is True or any(names & gd for gd in guards)):
+                return True
+            return False
+        return False
+    rets = [r for r in ast.walk(g.node) if isinstance(r, ast.Return) and r.value is not None]
+    if not rets:
+        return False
+    for r in rets:
+        v = r.value
+        if isinstance(v, ast.Tuple) and idx < len(v.elts):
+            res = ok_expr(v.elts[idx])
+            if res is not True:
+                return False
+        elif nested_report(v, idx):
+            continue
+        else:
+            return False
+    return True
 
 
 def reviewed_cursor_fact(q, f, st):
